@@ -3,6 +3,7 @@
 package main
 
 import (
+	"fmt"
 	"strings"
 
 	"github.com/pentops/j5/internal/verifh/vh"
@@ -26,6 +27,17 @@ var cutTemplates = []string{
 	"package foo.v1\n\n// a line comment\n/* a block\n comment */\nobject Foo {\n  | a description line\n  | second line\n\n  field a string {\n    rules.pattern = \"^[a-z]+$\"\n    | field description\n  }\n\n  field b string {\n    rules.pattern = /^a+$/\n  }\n}\n",
 	"package foo.v1\n\nentity Foo {\n  key fooId key:id62 {\n    primary = true\n  }\n  status A\n  summary {\n    name = \"X\"\n  }\n  query {\n    defaultStatusFilter = [\"A\"]\n  }\n}\n",
 	"package foo.v1\n\nimport \"bar/v1/x.proto\"\n\nobject Foo {\n  field a enum {\n    option A\n    rules.in = [\"A\", \"B\"]\n  }\n}\n",
+	numberTemplate,
+}
+
+// numberTemplate: numeric literals as attribute values (integer and float rules, array bounds)
+const numberTemplate = "package foo.v1\n\nobject Foo {\n  field a integer:INT64 {\n    rules.minimum = 5\n    rules.maximum = 70\n  }\n\n  field b float:FLOAT64\n\n  field c array:string {\n    rules.minItems = 1\n  }\n}\n"
+
+// numberMaterial: number-like tokens of common literal dialects, complete and cut short
+var numberMaterial = []string{
+	"0", "007", "-5", "-", "+5", "1.5", "1.", ".5", "1..2", "1.5.5", "1e5", "1e", "1e+", "1e-3", "1E5",
+	"0x1F", "0x", "0X", "0b101", "0o17", "1_000", "1_", "5u", "5L", "1f",
+	"99999999999999999999999999999999", "-99999999999999999999999999999999", "٣٤", "１２", "1٣", "NaN", "Inf", "-Inf",
 }
 
 // escapeMaterial: backslash sequences of common string-literal dialects, complete and cut short.
@@ -57,6 +69,19 @@ func buildCutDet() []cutDet {
 		out = append(out, cutDet{"cut-det-closed-" + name, head + m + tail})
 		out = append(out, cutDet{"cut-det-eol-" + name, head + m + "\n"})
 		out = append(out, cutDet{"cut-det-quote-" + name, head + m + "\""})
+	}
+	// numbers: every material as the value of `rules.minimum`, complete and with EOF after each prefix
+	ni := strings.Index(numberTemplate, "= 5\n")
+	nhead, ntail := numberTemplate[:ni+2], numberTemplate[ni+3:]
+	for mi, m := range numberMaterial {
+		name := fmt.Sprintf("num%d", mi)
+		out = append(out, cutDet{"cut-det-number-" + name, nhead + m + ntail})
+		for k := 1; k <= len(m); k++ {
+			if k > 6 && k < len(m) {
+				continue // long digit runs: first six prefixes and the whole
+			}
+			out = append(out, cutDet{"cut-det-number-eof-" + name, nhead + m[:k]})
+		}
 	}
 	// every prefix of a template that holds a regex, descriptions and comments
 	t2 := cutTemplates[1]
@@ -110,6 +135,15 @@ func cutText(h *vh.H, base string) string {
 		}
 		h.Count("total.cut.escape")
 	}
+	if spans := numberSpans(text); len(spans) > 0 && h.Chance(1, 3) {
+		sp := spans[h.Rng.IntN(len(spans))]
+		m := vh.Pick(h, numberMaterial)
+		text = text[:sp[0]] + m + text[sp[1]:]
+		if h.Chance(1, 2) {
+			mark, mlen = sp[0]+len(m), len(m)
+		}
+		h.Count("total.cut.number")
+	}
 	switch mode := h.Rng.IntN(8); {
 	case mode == 0:
 		h.Count("total.cut.mode.none")
@@ -157,4 +191,25 @@ func cutText(h *vh.H, base string) string {
 		h.Count("total.cut.mode.any")
 	}
 	return text
+}
+
+// numberSpans: [start, end) of the digit runs that follow "= " (attribute values)
+func numberSpans(text string) [][2]int {
+	var spans [][2]int
+	for off := 0; ; {
+		j := strings.Index(text[off:], "= ")
+		if j < 0 {
+			break
+		}
+		st := off + j + 2
+		en := st
+		for en < len(text) && text[en] >= '0' && text[en] <= '9' {
+			en++
+		}
+		if en > st {
+			spans = append(spans, [2]int{st, en})
+		}
+		off = st
+	}
+	return spans
 }
